@@ -175,6 +175,9 @@ func (o *Obligation) query(withModel bool, dropQuant bool) string {
 					continue // the hypothesis talks about arrays the goal does not mention
 				}
 				for _, inst := range instantiate(q.text, o.instTerms(goalLine+" "+q.text)) {
+					if dropQuant && strings.Contains(inst, "(forall ((") {
+						continue // a quantifier in negative position remains: drop the line from the quantifier-free variant
+					}
 					b.WriteString(inst)
 					b.WriteByte('\n')
 				}
@@ -260,7 +263,7 @@ func solveOne(o *Obligation, timeoutS int) {
 		// quantifier-free variant: hypotheses instantiated at the goal's skolems, quantified originals dropped
 		qf := o.query(false, true)
 		if !strings.Contains(qf, "(forall ((") && qf != q {
-			atts = append(atts, attempt{solvers[0], qf, "(qf-instances)", false}, attempt{solvers[2], qf, "(qf-instances)", false})
+			atts = append(atts, attempt{solvers[0], qf, "(qf-instances)", false}, attempt{solvers[1], qf, "(qf-instances)", false}, attempt{solvers[2], qf, "(qf-instances)", false})
 		}
 	} else {
 		// stage 1: z3-new alone, short
@@ -502,81 +505,99 @@ func replaceToken(s, name, repl string) string {
 	}
 }
 
-// instantiate produces, for an assertion line containing (forall ((x S)) BODY)
-// sub-terms, copies of the line in which the outermost such quantifier is
-// replaced by BODY[x := sk] for each skolem constant sk of sort S. Replacing a
-// universally quantified hypothesis by an instance only weakens it when the
-// quantifier occurs positively; lines where it occurs under a negation or in
-// an antecedent are skipped.
-func instantiate(line string, skolems []Term) []string {
+// instantiate returns (at most one) copy of an assertion line in which every positively occurring
+// (forall ((x S)) BODY) sub-term is replaced by the conjunction of BODY[x := t] for the given
+// instantiation terms t of sort S. Replacing a universally quantified hypothesis by instances only
+// weakens it. Lines in which some quantifier occurs negatively are returned with that quantifier
+// left in place (the caller drops such lines from the quantifier-free variant).
+func instantiate(line string, terms []Term) []string {
 	const pat = "(forall (("
-	idx := strings.Index(line, pat)
-	if idx < 0 {
+	if !strings.Contains(line, pat) {
 		return nil
 	}
-	// polarity check: the quantifier must not sit under "(not " or in the first argument of "(=> "
-	if !positiveAt(line, idx) {
-		return nil
-	}
-	// parse binder
-	p := idx + len(pat)
-	q := strings.IndexByte(line[p:], ' ')
-	if q < 0 {
-		return nil
-	}
-	name := line[p : p+q]
-	sortStart := p + q + 1
-	// sort ends at the matching ")" of the binder list: "((name SORT))"
-	depth := 0
-	k := sortStart
-	for ; k < len(line); k++ {
-		if line[k] == '(' {
-			depth++
-		} else if line[k] == ')' {
-			if depth == 0 {
-				break
-			}
-			depth--
+	pos := 0
+	changed := false
+	guard := 0
+	for guard < 4000 {
+		guard++
+		rel := strings.Index(line[pos:], pat)
+		if rel < 0 {
+			break
 		}
-	}
-	sortText := line[sortStart:k]
-	// after "))" comes a space and the body, up to the matching ")" of the forall
-	bodyStart := k + 3
-	if bodyStart >= len(line) {
-		return nil
-	}
-	depth = 0
-	m := bodyStart
-	for ; m < len(line); m++ {
-		if line[m] == '(' {
-			depth++
-		} else if line[m] == ')' {
-			if depth == 0 {
-				break
-			}
-			depth--
-		}
-	}
-	body := line[bodyStart:m]
-	if strings.HasPrefix(body, "(! ") {
-		// strip pattern annotation: (! BODY :pattern (...))
-		if pi := strings.LastIndex(body, " :pattern"); pi > 0 {
-			body = body[3:pi]
-		}
-	}
-	var out []string
-	for _, sk := range skolems {
-		if sk.Sort.String() != sortText {
+		idx := pos + rel
+		if !positiveAt(line, idx) {
+			pos = idx + len(pat)
 			continue
 		}
-		inst := line[:idx] + replaceToken(body, name, sk.S) + line[m+1:]
-		out = append(out, inst)
-		// nested quantifiers in the instance are instantiated as well
-		if !strings.Contains(sk.S, "(") {
-			out = append(out, instantiate(inst, skolems)...)
+		p := idx + len(pat)
+		q := strings.IndexByte(line[p:], ' ')
+		if q < 0 {
+			break
+		}
+		name := line[p : p+q]
+		sortStart := p + q + 1
+		depth := 0
+		k := sortStart
+		for ; k < len(line); k++ {
+			if line[k] == '(' {
+				depth++
+			} else if line[k] == ')' {
+				if depth == 0 {
+					break
+				}
+				depth--
+			}
+		}
+		sortText := line[sortStart:k]
+		bodyStart := k + 3
+		if bodyStart >= len(line) {
+			break
+		}
+		depth = 0
+		m := bodyStart
+		for ; m < len(line); m++ {
+			if line[m] == '(' {
+				depth++
+			} else if line[m] == ')' {
+				if depth == 0 {
+					break
+				}
+				depth--
+			}
+		}
+		body := line[bodyStart:m]
+		if strings.HasPrefix(body, "(! ") {
+			if pi := strings.LastIndex(body, " :pattern"); pi > 0 {
+				body = body[3:pi]
+			}
+		}
+		var insts []string
+		for _, t := range terms {
+			if t.Sort.String() != sortText {
+				continue
+			}
+			insts = append(insts, replaceToken(body, name, t.S))
+		}
+		var repl string
+		switch len(insts) {
+		case 0:
+			repl = "true"
+		case 1:
+			repl = insts[0]
+		default:
+			repl = "(and " + strings.Join(insts, " ") + ")"
+		}
+		line = line[:idx] + repl + line[m+1:]
+		changed = true
+		pos = idx // nested quantifiers inside the instances are handled by the next rounds
+		if len(line) > 4000000 {
+			break
 		}
 	}
-	return out
+	if !changed {
+		return nil
+	}
+	return []string{line}
 }
 
 // positiveAt reports whether position idx of an s-expression line is in a
